@@ -312,7 +312,7 @@ func (wr *Writer) tightMap(rv reflect.Value, si *sinfo) {
 			wr.buf = append(wr.buf, ':')
 			wr.tightMap(rm, si)
 		case reflect.String:
-			if (wr.OmitNil || wr.OmitEmpty) && rm.Len() == 0 {
+			if wr.OmitEmpty && rm.Len() == 0 {
 				continue
 			}
 			wr.buf = ojg.AppendSENString(wr.buf, keyString(kv), !wr.HTMLUnsafe)
